@@ -50,6 +50,7 @@ def run(S):
     stale_cleanup(S, D)
     range_cleanup(S, D)
     update_persisted(S, D)
+    recovery(S, D)
 
 
 def _sid(v, E, mem):
@@ -57,8 +58,8 @@ def _sid(v, E, mem):
         v = E.read_path(mem[v.cell], v.path, mem, True, 'id')
     if isinstance(v, X.I):
         return v.t
-    if isinstance(v, X.Adt) and 0 in v.fs:
-        return _sid(v.fs[0], E, mem)
+    if isinstance(v, X.Adt) and (0 in v.fs or v.alt is not None):
+        return _sid(E.read_path(v, (('f', 0, 'u64'),), mem, True, 'id'), E, mem)
     raise X.Unsupported('update id of %r' % (v,))
 
 
@@ -274,3 +275,126 @@ def update_persisted(S, D):
     S.no_panic(ids[4], E, [], 'no division by zero (maximum_pending_updates == 0 is tested first), no overflow')
     S.witness(ids[5], E, [has_update, z3.Not(incremental), full_ok, mon_latest.t == 10, max_pending.t == 3], is_ok)
     S.validate('C19.c.validate', E, battery_binding(z3.BoolVal(True)), n=1, extra_vectors=[(1,)])
+
+
+def recovery(S, D):
+    """C19.d: maybe_read_channel_monitor_with_updates - how a monitor is rebuilt from the stored monitor and the stored
+    incremental updates.  N listed update names; the joined / batched reads are stubs that are ready at once."""
+    for N in ((0, 1, 2) if S.tier == 'quick' else (0, 1, 2, 3)):
+        tag = 'C19.d.n%d' % N
+        ids = [tag + s for s in ('.applies_newer_in_order', '.errors_reported', '.nopanic', '.witness')]
+        if all(S._skip(o) for o in ids):
+            continue
+        f = afn(S, 'maybe_read_channel_monitor_with_updates', 0)
+        E = S.engine(unwind=N + 1)
+        mem = {}
+        cur = E.sym('stored_monitor.update_id', 'u64')
+        uid = [E.sym('listed%d.update_id' % i, 'u64') for i in range(N)]
+        name_ok = [z3.Bool('listed%d.name_parses' % i) for i in range(N)]
+        read_ok = [z3.Bool('store.read_update%d_ok' % i) for i in range(N)]
+        apply_ok = [z3.Bool('monitor.apply%d_ok' % i) for i in range(N)]
+        key_ok, mon_ok, mon_some, list_ok = z3.Bool('key_parses'), z3.Bool('store.read_monitor_ok'), z3.Bool('store.monitor_present'), z3.Bool('store.list_ok')
+        CU = D.struct_fields('ChannelMonitorUpdate')
+        applied = []
+        mon_c = E.new_cell()
+        mem[mon_c] = X.Opaque('monitor')
+
+        def by_id(term, flags):
+            return z3.Or(*[z3.And(term == uid[j].t, flags[j]) for j in range(N)]) if N else z3.BoolVal(True)
+
+        def mk_join(argv, guard, mem_):
+            read_res = X.En('Result', z3.If(mon_ok, 0, 1), {0: [X.En('Option', z3.If(mon_some, 1, 0), {1: [X.Tup([X.Opaque('best block'), X.Opaque('monitor')])]})], 1: [X.Opaque('io error')]})
+            list_res = X.En('Result', z3.If(list_ok, 0, 1), {0: [X.Opaque('names')], 1: [X.Opaque('io error')]})
+            return X.Tup([read_res, list_res])
+
+        def h_collect(E_, m, func, argv, guard, mem_, dty, caller):
+            allok = z3.And(*name_ok) if N else z3.BoolVal(True)
+            return X.En('Result', z3.If(allok, 0, 1), {0: [X.Seq([X.Adt('UpdateName', {0: uid[i], 1: X.Opaque('name text')}) for i in range(N)], N, 'UpdateName')], 1: [X.Opaque('io error')]})
+
+        def h_sort(E_, m, func, argv, guard, mem_, dty, caller):
+            r_ = argv[0]
+            s_ = E.read_path(mem_[r_.cell], r_.path, mem_, guard, 'sort')
+            if not (isinstance(s_, X.Seq) and isinstance(s_.n, int)):
+                raise X.Unsupported('sort of %r' % (s_,))
+            el = list(s_.elems[:s_.n])
+            key = lambda v: _sid(v, E, mem_)
+            # bubble sort as a network of compare-exchanges
+            for a_ in range(len(el)):
+                for b_ in range(len(el) - 1 - a_):
+                    c_ = key(el[b_]) <= key(el[b_ + 1])
+                    x, y = el[b_], el[b_ + 1]
+                    el[b_], el[b_ + 1] = E.merge(c_, x, y), E.merge(c_, y, x)
+            mem_[r_.cell] = E.write_path(mem_[r_.cell], r_.path, X.Seq(el, s_.n, s_.ety), mem_, guard, 'sort')
+            return X.UNIT
+
+        def mk_multi(argv, guard, mem_):
+            v = argv[0]
+            if not isinstance(v, X.Seq):
+                raise X.Unsupported('futures to poll: %r' % (v,))
+            import os
+            if os.environ.get('C19_DEBUG'): print('MULTI prefix', v.prefix, 'n', v.n, 'pres', getattr(v, 'pres', None), 'len', len(v.elems))
+            outs = []
+            for e in v.elems:
+                pl = e.vs.get(D.variant_index('ResultFuture', 'Pending'), [None])[0] if isinstance(e, X.En) else None
+                cor = pl
+                while isinstance(cor, X.Adt) and cor.name == 'Pin':
+                    cor = cor.fs[0]
+                if not isinstance(cor, X.Cor):
+                    raise X.Unsupported('pending read is %r' % (e,))
+                name_ref = cor.ups[0]
+                nid = _sid(name_ref, E, mem_)
+                upd = X.Adt('ChannelMonitorUpdate', {CU.index('update_id'): X.I(nid, 'u64')}, base='stored_update')
+                outs.append(X.Tup([name_ref, X.En('Result', z3.If(by_id(nid, read_ok), 0, 1), {0: [upd], 1: [X.Opaque('io error')]})]))
+            return X.Seq(outs, v.n, 'tuple') if v.prefix else X.Seq(outs, None, 'tuple', pres=v.pres)
+
+        def h_results_iter(E_, m, func, argv, guard, mem_, dty, caller):
+            v = argv[0]           # by value: the items are the tuples themselves
+            its = [((True if v.prefix and isinstance(v.n, int) and i < v.n else (X.simp(X.zint(v.n) > i) if v.prefix else X.simp(v.pres[i]))), e) for i, e in enumerate(v.elems)]
+            return X.It('list', extra=([(p_, e) for p_, e in its if p_ is not False], 0))
+
+        def h_apply(E_, m, func, argv, guard, mem_, dty, caller):
+            u = argv[1]
+            uidv = E.read_path(mem_[u.cell], u.path + (('f', CU.index('update_id'), 'u64'),), mem_, guard, 'apply').t if isinstance(u, X.Ref) else _sid(u, E, mem_)
+            applied.append((X.zbool(guard), uidv))
+            return X.En('Result', z3.If(by_id(uidv, apply_ok), 0, 1), {0: [X.UNIT], 1: [X.UNIT]})
+        for rx, h in future_stubs(E, [(r'TwoFutureJoiner::<.*>::new$', mk_join), (r'MultiResultFuturePoller::<.*>::new$', mk_multi)]) + [(re.compile(a), b) for a, b in [
+                (r'MonitorName::from_str$', lambda *a: X.En('Result', z3.If(key_ok, 0, 1), {0: [X.Opaque('monitor name')], 1: [X.Opaque('io error')]})),
+                (r'MonitorUpdatingPersisterAsyncInner::<.*>::maybe_read_monitor$', lambda *a: X.Opaque('read future')),
+                (r' as KVStore>::list$', lambda *a: X.Opaque('list future')),
+                (r'ChannelMonitor::<.*>::get_latest_update_id$', lambda *a: cur),
+                (r'Vec<(?:std::string::)?String> as IntoIterator>::into_iter$', lambda *a: X.Opaque('names iter')),
+                (r'IntoIter<(?:std::string::)?String> as Iterator>::map::<', lambda *a: X.Opaque('names map')),
+                (r'Map<.*IntoIter<(?:std::string::)?String>, .*> as Iterator>::collect::<', h_collect),
+                (r'slice::<impl \[UpdateName\]>::sort_unstable$', h_sort),
+                (r'Filter<.*UpdateName.*> as Clone>::clone$', lambda E_, m, func, argv, guard, mem_, dty, caller: E.read_path(mem_[argv[0].cell], argv[0].path, mem_, guard, 'clone')),
+                (r'Filter<.*UpdateName.*> as Iterator>::count$', lambda *a: E.sym('n_to_load!%d' % next(E.nfresh), 'usize')),
+                (r'Box::<\{async block@.*\}>::pin$', lambda E_, m, func, argv, *a: argv[0]),
+                (r'Vec<\(&UpdateName, .*\)> as IntoIterator>::into_iter$', h_results_iter),
+                (r'UpdateName::as_str$', lambda *a: X.Opaque('name text')),
+                (r'(?:bitcoin_io|io)::Error::new::<', lambda *a: X.Opaque('io error')),
+                (r'ChannelMonitor::<.*>::update_monitor::<', h_apply)]]:
+            E.models.insert(0, (rx, h))
+        out, st = poll_once(S, E, f, {0: X.Opaque('persister'), 1: X.Opaque('monitor key')}, mem)
+        S._dbg = dict(applied=applied, out=out)
+        is_ok = X.zint(out.d) == 0
+        got = E.en_payload(out, 'Ok', 0, 0, 'Option', mem, 'spec')
+        got_some = z3.And(is_ok, X.zint(got.d) == 1)
+        # expected: ids above the stored monitor's, ascending; stops at the first failed read / application
+        pre = ([z3.Distinct(*[u.t for u in uid])] if N > 1 else []) + [u.t < (1 << 63) for u in uid] + [cur.t < (1 << 63)]
+        start_ok = z3.And(key_ok, mon_ok, mon_some, list_ok, *name_ok)
+        want = lambda i: uid[i].t > cur.t
+        # the applications the run should make: in ascending id order, each wanted id after all smaller wanted ids succeeded
+        def smaller_ok(i):
+            return z3.And(*[z3.Implies(z3.And(want(j), uid[j].t < uid[i].t), z3.And(read_ok[j], apply_ok[j])) for j in range(N) if j != i])
+        exp_applied = [z3.And(start_ok, want(i), smaller_ok(i), read_ok[i]) for i in range(N)]
+        n_applied_id = lambda i: z3.Sum([z3.If(z3.And(g, u == uid[i].t), 1, 0) for g, u in applied]) if applied else z3.IntVal(0)
+        order_ok = z3.And(*[z3.Implies(z3.And(applied[a_][0], applied[b_][0]), applied[a_][1] < applied[b_][1]) for a_ in range(len(applied)) for b_ in range(a_ + 1, len(applied))])
+        all_fine = z3.And(start_ok, *[z3.Implies(want(i), z3.And(read_ok[i], apply_ok[i])) for i in range(N)])
+        prove(S, ids[0], E, pre, z3.And(*[n_applied_id(i) == z3.If(exp_applied[i], 1, 0) for i in range(N)], order_ok,
+                                         *[z3.Implies(g, z3.Or(*[u == uid[i].t for i in range(N)])) for g, u in applied]),
+              'recovery applies exactly the stored updates whose id is above the stored monitor\'s own update id, each once, in ascending id order (whatever order the store lists them in), and none at or below it',
+              bounds='%d update names listed; ids, parse results and store outcomes arbitrary' % N)
+        prove(S, ids[1], E, pre, z3.And(got_some == all_fine, z3.Implies(z3.And(key_ok, mon_ok, z3.Not(mon_some)), z3.And(is_ok, z3.Not(got_some)))),
+              'a recovered monitor is returned only if the stored monitor, the listing, every name and the reading and application of EVERY newer update succeeded; any failure is an error, never a silently shorter history')
+        S.no_panic(ids[2], E, pre, 'total')
+        S.witness(ids[3], E, pre + ([want(0)] if N else []), got_some)
